@@ -64,6 +64,16 @@ Proof.
   exists q. split; [exact Hq | apply Hg].
 Qed.
 
+Lemma pols_from_trans : forall c c1 c2, pols_from c c1 -> pols_from c1 c2 -> pols_from c c2.
+Proof.
+  intros c c1 c2 A B p2 Hp2. destruct (B p2 Hp2) as [E|[p1 [Hp1 F12]]]; [left; exact E|].
+  destruct (A p1 Hp1) as [[E1 E2]|[p [Hp F01]]].
+  - left. destruct F12 as [S I]. split.
+    + destruct (rp_sgs p2) as [|g r] eqn:Es; [reflexivity|]. exfalso. destruct (S g (or_introl eq_refl)) as [g0 [Hg0 _]]. rewrite E1 in Hg0. contradiction.
+    + destruct (rp_igs p2) as [|g r] eqn:Es; [reflexivity|]. exfalso. destruct (I g (or_introl eq_refl)) as [g0 [Hg0 _]]. rewrite E2 in Hg0. contradiction.
+  - right. exists p. split; [exact Hp | eapply pol_from_trans; eassumption].
+Qed.
+
 (* ---- how one policy changes ---- *)
 Lemma pol_from_sgs_updf : forall q P f, (forall g, sg_orig g (f g)) -> pol_from q (pol_set_sgs q (upd_first P f (rp_sgs q))).
 Proof.
@@ -202,7 +212,14 @@ Proof.
     destruct (get_pol c db rp) as [p|]; [|apply pols_from_eq; reflexivity].
     match goal with |- context [if ?t then err c else _] => destruct t end; [apply pols_from_eq; reflexivity|].
     destruct (negb (spec_valid _ _)); [apply pols_from_eq; reflexivity|].
-    destruct (rekey c); cbn [fst ok]; [destruct (mkdef || _) | destruct mkdef]; (eapply pols_from_updf; [reflexivity | pf_meta]).
+    destruct (rekey c); cbn [fst ok].
+    + assert (A : forall X, pols_from c X -> pols_from c (if mkdef || (db_default y =? rp_nm p) then set_default X db nn else X)).
+      { intros X HX. destruct (mkdef || _); [|exact HX]. intros q Hq. apply HX. exact Hq. }
+      apply A. destruct (nn =? rp_name p).
+      * eapply pols_from_updf; [reflexivity | pf_meta].
+      * eapply pols_from_trans; [eapply (pols_from_filter c (set_pols c _)); reflexivity|].
+        eapply pols_from_updf; [reflexivity | pf_meta].
+    + destruct mkdef; (eapply pols_from_updf; [reflexivity | pf_meta]).
   - unfold cancel_delete_sg. destruct (get_pol c db rp) as [p|]; [|apply pols_from_eq; reflexivity].
     destruct (find _ (rp_sgs p)) as [g|]; [|apply pols_from_eq; reflexivity]. destruct (negb (sg_del g)); [apply pols_from_eq; reflexivity|].
     destruct (_ && _); [apply pols_from_eq; reflexivity|]. cbn [fst ok].
